@@ -168,6 +168,7 @@ ExprKinds == {"Ident", "BasicLit", "NumberUnitLit", "DomainTextLit", "EnvExpr", 
 \* child slots that hold an ordinary expression (so that `(e)` is legal there and is kept as a ParenExpr)
 WrapSlot(t, i) ==
   /\ t.c[i].k \in ExprKinds
+  /\ ~(t.c[i].k = "CallExpr" /\ t.c[i].a \in {"cmd", "cmd..."})       \* `(g a)` is not a command call
   /\ \/ t.k \in {"BinaryExpr", "UnaryExpr", "StarExpr", "ParenExpr", "IndexExpr", "SliceExpr", "ReturnStmt", "ExprStmt", "ElemEllipsis"}
      \/ (t.k = "ErrWrapExpr")
      \/ (t.k \in {"SelectorExpr", "TypeAssertExpr"} /\ i = 1)
@@ -221,19 +222,22 @@ NLLegal(rt, l, i) == i > 1 /\ (IF IsSep(rt, i - 1) THEN l[i - 1] = ";" ELSE ~LSe
 \* white space after "." (selector, type assertion) is legal although Syntax.tla glues those tokens
 Relaxed(rt, i) == i > 1 /\ rt[i - 1].s = "." /\ rt[i].g = "g" /\ rt[i].s # "("
 \* THE LEGALITY RULE for the gap in front of token i
-Legal(rt, l, i, g) ==
+\* a separator may be left out before a closing "}" or ")" (parser.go expectSemi); the field block of a class file is
+\* the exception: every field there ends with ";" (parseClassFieldsDecl), so cls restricts the rule to "}"
+OmitOK(rt, i, cls) == i < Len(rt) /\ rt[i + 1].s \in (IF cls THEN {"}"} ELSE {")", "}"})
+Legal(rt, l, i, g, cls) ==
   IF i = 1 THEN g = ""
   ELSE IF IsSep(rt, i) THEN /\ g \in SepKinds
-                            /\ g = "omit" => i < Len(rt) /\ rt[i + 1].s \in {")", "}"} /\ ~IsNL(l[i + 1])
+                            /\ g = "omit" => OmitOK(rt, i, cls) /\ ~IsNL(l[i + 1])
   ELSE /\ g \in GapKinds
        /\ (rt[i].g = "g" /\ ~Relaxed(rt, i)) => g = (IF rt[i].sep THEN " " ELSE "")
        /\ rt[i].g = "w" => g # ""
        /\ rt[i].sep => g # ""
        /\ IsNL(g) => NLLegal(rt, l, i)
 \* base layouts
-BaseGap(rt, i, m) ==
+BaseGap(rt, i, m, cls) ==
   IF i = 1 THEN ""
-  ELSE IF IsSep(rt, i) THEN (IF m \in {"tight", "one"} THEN (IF m = "one" /\ (i < Len(rt) /\ rt[i + 1].s \in {")", "}"}) THEN "omit" ELSE ";") ELSE "\n")
+  ELSE IF IsSep(rt, i) THEN (IF m \in {"tight", "one"} THEN (IF m = "one" /\ OmitOK(rt, i, cls) THEN "omit" ELSE ";") ELSE "\n")
   ELSE IF rt[i - 1].s = "{" /\ rt[i - 1].g = "b" /\ rt[i].s # "}" /\ m \in {"canon", "wide", "nl"} THEN "\n"
   ELSE LET g == rt[i].g
            can == rt[i].sep \/ (CASE g = "w" -> TRUE [] g = "g" -> FALSE [] g = "s" -> FALSE [] g = "b" -> m # "tight" [] OTHER -> m \in {"wide", "nl"})
@@ -259,7 +263,7 @@ BoundaryFree(rt, b) == b = 0 \/ b = Len(rt) \/ rt[b + 1].g # "g" \/ Relaxed(rt, 
 BoundaryNL(rt, l, b) == \/ b = 0 \/ b = Len(rt)
                         \/ (IsSep(rt, b + 1) /\ IsNL(l[b + 1]))      \* in front of a separator written as newline
                         \/ (IsSep(rt, b) /\ IsNL(l[b]))              \* behind it
-                        \/ (~IsSep(rt, b + 1) /\ Legal(rt, l, b + 1, "\n"))
+                        \/ (~IsSep(rt, b + 1) /\ Legal(rt, l, b + 1, "\n", FALSE))
 CmLegal(rt, l, b, k, pre) ==
   /\ BoundaryFree(rt, b)
   /\ (b < Len(rt) /\ rt[b + 1].g = "s") => FALSE
@@ -316,14 +320,14 @@ CommentsOf(its) == LET cs == SelectSeq(its, LAMBDA x : x.k \in {"c", "l"}) IN [j
 (* STATE MACHINE                                                            *)
 NoOut == [items |-> <<>>, scan |-> <<>>]
 MkPr(t) == LET pt == Par(t) IN [pt |-> pt, toks |-> <<>>, render |-> RenderToks(pt), spans |-> Spans(pt), walk |-> <<>>]
-BaseLay(rt, m) == [i \in 1..Len(rt) |-> BaseGap(rt, i, m)]
+BaseLay(rt, m, cls) == [i \in 1..Len(rt) |-> BaseGap(rt, i, m, cls)]
 LInit == /\ foc \in LFoci /\ tree \in LUniverse(foc) /\ base \in Bases
          /\ pr = NoPr /\ ps = NoPs /\ pc = "start" /\ lay = <<>> /\ ned = [n |-> 0, last |-> 0]
          /\ cms = <<>> /\ mut = "" /\ out = NoOut
 \* fix the tree: parenthesise it (Par), compute tokens / spans, lay it out in the base layout
 ChooseTree == /\ pc = "start"
               /\ pr' = MkPr(tree)
-              /\ lay' = BaseLay(pr'.render, base)
+              /\ lay' = BaseLay(pr'.render, base, tree.a = "class")
               /\ pc' = "layout"
               /\ UNCHANGED <<foc, tree, ps, base, ned, cms, mut, out>>
 \* one AST mutation of the chosen tree (before any layout decision)
@@ -331,12 +335,12 @@ Mutate == /\ pc = "start" /\ MutKinds # {}
           /\ \E m \in Muts(tree, MutKinds) :
                /\ tree' = m
                /\ pr' = MkPr(m)
-               /\ lay' = BaseLay(pr'.render, base)
+               /\ lay' = BaseLay(pr'.render, base, tree.a = "class")
           /\ mut' = "mutated" /\ pc' = "layout"
           /\ UNCHANGED <<foc, ps, base, ned, cms, out>>
 \* deviate from the base layout in front of token i (left to right, so every set of deviations is reached once)
 PlaceGap(i, g) == /\ pc = "layout" /\ ned.n < MaxGap /\ i > ned.last
-                  /\ g # lay[i] /\ (Legal(pr.render, lay, i, g) = TRUE)   \* (= TRUE: evaluated as a value, so \/ short-circuits)
+                  /\ g # lay[i] /\ (Legal(pr.render, lay, i, g, tree.a = "class") = TRUE)   \* (= TRUE: evaluated as a value, so \/ short-circuits)
                   /\ lay' = [lay EXCEPT ![i] = g]
                   /\ ned' = [n |-> ned.n + 1, last |-> i]
                   /\ UNCHANGED <<foc, tree, pr, ps, pc, base, cms, mut, out>>
@@ -365,7 +369,7 @@ RescanOK == IsDone => out.scan = Expected(pr.render, lay)
 \* the comment sequence of the rendering is the inserted one, in order, text-exact
 CommentsOK == IsDone => CommentsOf(out.items) = [j \in 1..Len(cms) |-> CmText(cms[j].k, j)]
 \* every gap decision is legal (the base layouts as well as the deviations)
-GapsLegal == pc = "layout" => \A i \in 1..Len(lay) : Legal(pr.render, lay, i, lay[i])
+GapsLegal == pc = "layout" => \A i \in 1..Len(lay) : Legal(pr.render, lay, i, lay[i], tree.a = "class")
 \* the parenthesised tree is the tree again once the inserted parentheses are stripped (mutations keep theirs)
 \* (both evaluated once per tree: in the state right after ChooseTree / Mutate)
 Fresh == pc = "layout" /\ ned.n = 0 /\ cms = <<>>
